@@ -234,6 +234,13 @@ func checkSubregion(c subCase) ev.Outcome {
 		return o
 	}
 	ra, rb := la.RectBound(), lb.RectBound()
+	for _, r := range []s2.Rect{ra, rb} {
+		if math.IsNaN(r.Lat.Lo) || math.IsNaN(r.Lat.Hi) || math.IsNaN(r.Lng.Lo) || math.IsNaN(r.Lng.Hi) {
+			o.Err = fmt.Sprintf("RectBound of a valid loop has a NaN coordinate: A %v %v, B %v %v", ra.Lat, ra.Lng, rb.Lat, rb.Lng)
+			o.Finding = "rect-bound-nan"
+			return o
+		}
+	}
 	ex := s2.ExpandForSubregions(ra)
 	poleIn := insideConvex(A, r3.Vector{Z: 1}) >= 0 || insideConvex(A, r3.Vector{Z: -1}) >= 0
 	how := "plain"
@@ -401,6 +408,27 @@ func hasAntipodalPair(pts []s2.Point) bool {
 	return false
 }
 
+// hasParallelPair: two distinct input points whose vectors are exactly
+// parallel and point the same way (the same point of the sphere stored with
+// two different lengths).
+func hasParallelPair(pts []s2.Point) bool {
+	if len(pts) > 400 {
+		return false
+	}
+	for i := range pts {
+		for j := i + 1; j < len(pts); j++ {
+			a, b := pts[i], pts[j]
+			if a == b || a.Sub(b.Vector).Norm() > 1e-14 {
+				continue
+			}
+			if exact.IsZero(exact.Cross(exact.IntVec(a.Vector), exact.IntVec(b.Vector))) {
+				return true
+			}
+		}
+	}
+	return false
+}
+
 func sameCyclic(a, b []s2.Point) bool {
 	if len(a) != len(b) {
 		return false
@@ -510,9 +538,22 @@ func checkHull(c hullCase) (o ev.Outcome) {
 	// hemisphere share one narrow class (the full-loop switch has no slack)
 	nearHemi := q.CapBound().Height() >= 1-4e-15
 	defer func() {
+		if o.Finding == "rect-bound-nan" || o.Finding == "bounder-long-edge-lat" {
+			return
+		}
+		if hgt := q.CapBound().Height(); o.Err != "" && math.IsNaN(hgt) {
+			o.Err += " [the input's bounding rectangle/cap has a NaN coordinate]"
+			o.Finding = "rect-bound-nan"
+			return
+		}
 		if o.Err != "" && closePair && o.Finding != "hull-degenerate-pair" {
 			o.Err += " (two distinct input points within 1e-15 of identical or antipodal)"
 			o.Finding = "hull-degenerate-pair"
+		}
+		if o.Err != "" && o.Finding != "hull-degenerate-pair" && hasParallelPair(pts) {
+			o.Err += " (the input contains two distinct points with exactly the same direction, differing only in length)"
+			o.Finding = "hull-parallel-pair"
+			return
 		}
 		if o.Err != "" && nearHemi && o.Finding != "hull-degenerate-pair" {
 			o.Err += fmt.Sprintf(" [input bounding cap height %.17g: within 4e-15 of a hemisphere]", q.CapBound().Height())
@@ -606,6 +647,16 @@ func checkHull(c hullCase) (o ev.Outcome) {
 		if !hull.ContainsPoint(p) {
 			o.Err = fmt.Sprintf("input point %d %v is neither a hull vertex nor contained by the hull loop (%d hull vertices, %s; it is on the inner side of every edge)", i, p.Vector, n, kind)
 			o.Finding = "hull-containspoint"
+			// attribute to the hull loop's own rectangle when that is what rejects the point
+			hb := hull.RectBound()
+			switch m := rectHas(hb, p); {
+			case math.IsNaN(hb.Lat.Lo) || math.IsNaN(hb.Lat.Hi):
+				o.Err += fmt.Sprintf(" [the hull loop's RectBound has a NaN latitude: %v %v]", hb.Lat.Lo, hb.Lat.Hi)
+				o.Finding = "rect-bound-nan"
+			case m.miss && hasLongEdge(H, true):
+				o.Err += fmt.Sprintf(" [the hull loop's RectBound %v excludes the point and the loop has an edge longer than 2.6 rad: %v]", hb, m)
+				o.Finding = "bounder-long-edge-lat"
+			}
 			return o
 		}
 	}
@@ -643,8 +694,8 @@ func checkHull(c hullCase) (o ev.Outcome) {
 func init() {
 	ev.Define("subregion_bound", ev.Options{
 		Rule: "A = exactly convex loop (vertices on a small circle, optionally grazing a pole within 0..0.02 rad with a vertex or an edge midpoint towards the pole, clustered vertices; or a convex lune-shaped quad whose diagonal joins points 2e-16..0.1 rad from antipodal); B inside A by construction and verified exactly (subset of A's vertices; vertices on the rays from an interior point to A's vertices at scale 1-1e-15..0.5; triangles on the nearly antipodal diagonal; A itself rotated). A containing a pole is excluded as documented (classified, not asserted). Assert ExpandForSubregions(A.RectBound()).Contains(B.RectBound()) and then A.Contains(B). Non-trivial = the expansion was needed (A's own bound does not contain B's) or it switched to full / full longitude.",
-		Quick: 24000, Thorough: 900000}, genSubCase, checkSubregion)
+		Quick: 40000, Thorough: 2000000}, genSubCase, checkSubregion)
 	ev.Define("convex_hull", ev.Options{
 		Rule: "1..3 inputs (point sets: degenerate relatives, exactly coplanar tuples, points on a circle plus centre and chord points, cell-vertex grids, 1-2 points, random discs with chord points; polylines; star loops; polygons with holes) within a spread of 1e-7..1.5 rad or within 0..0.05 of a hemisphere. Hull must be a valid loop, every consecutive triple exactly counter-clockwise and no vertex right of any edge; every input point is a hull vertex, or (exact half-space test) on the inner side of every edge and hull.ContainsPoint; hull vertices are input points; a second call gives the same loop; hull.Contains(each input loop). Non-trivial = a proper hull (>= 3 distinct inputs, not full) with an input point that is not a vertex but within 1e-13 of an edge plane.",
-		Quick: 16000, Thorough: 600000}, genHullCase, checkHull)
+		Quick: 30000, Thorough: 1200000}, genHullCase, checkHull)
 }
